@@ -347,12 +347,15 @@ func checkA1(c caseA) *vt.Fail {
 		e.Vars = append(e.Vars, setup...)
 		return nil
 	}}
-	rr := tskit.RunInProcess(root, []tskit.ScriptFile{{Name: "s", Data: []byte(script)}}, tskit.RunOpts{Params: p, Deadline: 2 * time.Minute})
+	rr := tskit.RunInProcess(root, []tskit.ScriptFile{{Name: "s", Data: []byte(script)}}, tskit.RunOpts{Params: p, Deadline: 30 * time.Second})
 	if len(rr.Subs) != 1 {
 		return vt.Failf("runt-top-level", "RunT: %s %s", rr.Top.Verdict, rr.Top.Log)
 	}
 	sub := rr.Subs[0]
 	ctx := fmt.Sprintf("\nsetup vars: %q\nscript:\n%s\nlog:\n%s", setup, script, trunc(sub.Log, 1200))
+	if strings.Contains(sub.Log, "test timed out while running command") {
+		return vt.BlockedOrBusy(rec, "a script of lines that end by themselves sat in a command until the harness's safety deadline (30s)"+ctx)
+	}
 	if sub.Verdict != "pass" {
 		return vt.Failf("script-did-not-pass", "a script of well-formed env/probe/getenv/printenv lines was reported as %s %s%s", sub.Verdict, sub.Panic, ctx)
 	}
@@ -710,12 +713,15 @@ func checkB(c caseB) *vt.Fail {
 		e.Vars = append(e.Vars, c.Setup...)
 		return nil
 	}}
-	rr := tskit.RunInProcess(root, []tskit.ScriptFile{{Name: "s", Data: []byte(script)}}, tskit.RunOpts{Params: p, Deadline: 2 * time.Minute})
+	rr := tskit.RunInProcess(root, []tskit.ScriptFile{{Name: "s", Data: []byte(script)}}, tskit.RunOpts{Params: p, Deadline: 30 * time.Second})
 	if len(rr.Subs) != 1 {
 		return vt.Failf("runt-top-level", "RunT: %s %s", rr.Top.Verdict, rr.Top.Log)
 	}
 	sub := rr.Subs[0]
 	ctx := fmt.Sprintf("\nsetup vars: %q\nscript:\n%s\nlog:\n%s", c.Setup, script, trunc(sub.Log, 1200))
+	if strings.Contains(sub.Log, "test timed out while running command") {
+		return vt.BlockedOrBusy(rec, "a script of lines that end by themselves sat in a command until the harness's safety deadline (30s)"+ctx)
+	}
 	failLines, _ := tskit.FailLines(sub.Log, rr.Files[0])
 	var wantFail []int
 	var wantArgv [][]string
